@@ -8,7 +8,18 @@ ENGINE_COMPONENTS = dict(
           "storage: qbice InMemoryStorageEngine (shipped, but not the persistent path)"],
 )
 
+DB_COMPONENTS = dict(
+    real=["qbice::Engine", "DbBacked storage engine: CacheSingleMap / CacheDynamicMap / CacheKeyOfSetMap, TinyLFU, "
+          "single-flight, WriteBehind pipeline (real serializer / commit / after-commit threads, frozen and drained "
+          "at seeded points through the wb_* hooks)", "interner and (de)serialization of every stored value"],
+    stub=["disk: SimKv (ordered maps + append-only log of physical commits; crash = prefix of the log)",
+          "user code: harness executors"],
+)
+
 CLASS_PROPERTY = {
+    "crash_wrong_value": "C08",
+    "crash_inputs_not_a_session": "C08",
+    "lost_after_clean_shutdown": "C07",
     "wrong_value": "C01",
     "wrong_set_input_result": "C01",
     "unjustified_exec": "C03",
@@ -52,7 +63,33 @@ PROPS = {
     ),
 }
 
-HOOK_COMMITS = []
+PROPS["C07"] = dict(
+    bin="engine_sim", packages=["engine_sim"], args=["--prop", "C07"],
+    quick_s=60, thorough_s=600, level="exploration", also=["C01", "C03"],
+    rule=("C01 histories with clean Restart (drop engine, reopen on the same SimKv disk, re-register executors) and "
+          "pipeline Drain operations inserted at arbitrary positions; cache capacity 1-64, 1-3 serializer threads, "
+          "1-6 logical batches per physical commit. After every restart all values must be from-scratch and the "
+          "justification rule of C03 keeps applying across the restart (a node that was up to date is served with "
+          "zero executor runs). non-trivial = a restart happened, >= 2 epochs, a changing session and a request "
+          "reaching a node computed before; distinct = hash of (program, history)"),
+    components=DB_COMPONENTS,
+    assumptions=COMMON_ASSUME + ["pipeline steps between two drains commute (the simulation thread only observes "
+                                 "quiescent pipeline states)"],
+)
+PROPS["C08"] = dict(
+    bin="engine_sim", packages=["engine_sim"], args=["--prop", "C08"],
+    quick_s=60, thorough_s=600, level="fault_enumeration", also=["C01", "C07"],
+    rule=("per sampled run (program x history x grouping x drain points on DbBacked<SimKv>) EVERY prefix of the "
+          "physical commit log is opened as a crash state by a fresh engine: recovered inputs must be exactly the "
+          "inputs of one committed session (monotone in the prefix length), every node must then answer "
+          "from-scratch for those inputs, and the full log must equal the last session. non-trivial as C01 with "
+          ">= 2 physical commits; distinct = hash of (program, history); crash prefixes are counted in totals"),
+    components=DB_COMPONENTS,
+    assumptions=COMMON_ASSUME + ["a process death leaves a prefix of the physical commits (commits are atomic in "
+                                 "the KvDatabase contract); kill -9 of real backends is a separate sub-check"],
+)
+
+HOOK_COMMITS = ["06b6edb", "0ffc033"]
 
 NOT_BUILT = "check not built yet (work in progress in this session; see DESIGN.md section 8 for the order of construction)"
 NOT_APPLICABLE = {
@@ -60,11 +97,27 @@ NOT_APPLICABLE = {
             "clock, fault, I/O or interleaving for the property to depend on and no seam to own; pairwise distinctness "
             "over a type universe is enumeration, a different technique (DESIGN.md section 5)"),
 }
-for _p in ["C02", "C04", "C05", "C06", "C07", "C08", "C09", "C10", "C11", "C12", "C13", "C15", "C16"]:
+for _p in ["C02", "C04", "C05", "C06", "C09", "C10", "C11", "C12", "C13", "C15", "C16"]:
     if _p not in PROPS:
         NOT_APPLICABLE[_p] = NOT_BUILT
 
 MANIFEST_TEXT = {
+    "C07": dict(
+        text=("Seeded exploration of restart positions: the real engine, caches and write-behind pipeline run on a "
+              "simulated disk; clean shutdown and reopen are operations of the generated history; value and "
+              "re-execution oracles of C01/C03 span the restart."),
+        design_ref="DESIGN.md section 4 C07",
+        note="trusted: SimKv stub, the freeze/drain gate of the pipeline, oracles of C01/C03",
+        technique="deterministic simulation with simulated disk; restart as a generated operation",
+    ),
+    "C08": dict(
+        text=("Fault enumeration inside every sampled run: all prefixes of the physical commit log (all crash "
+              "points between commits, for the grouping the run chose) are recovered and checked; sampling is "
+              "across programs, histories, groupings and drain points."),
+        design_ref="DESIGN.md section 4 C08",
+        note="trusted: SimKv stub and its atomic-commit model; recovered engines are checked after the engine's own firewall-repair pass",
+        technique="deterministic simulation, crash-point enumeration over the simulated disk's commit log",
+    ),
     "C01": dict(
         text=("Seeded exploration: the real engine runs generated query programs and histories on a "
               "deterministic single-threaded runtime; every value handed to the user or to an executor is "
